@@ -20,6 +20,7 @@ def run(res, tier, seed, replay):
                    ("conflict", al.NOHINT & ~128, 150 * k), ("fanout", 80, 60 * k)]
         recs, hangs = al.run_async("c09", streams, seed + 71)
     al.judge(recs, want_exact=True)
+    al.judge_later_solves(recs)
     # the model the C09_model_* theorems are about, against the real call sequence
     if replay:
         erecs = []
@@ -80,6 +81,17 @@ def run(res, tier, seed, replay):
                               al.replay_obj(r, run))
             if not run["once"]:
                 res.violation(key, f"a provider request was repeated ({run['label']})", al.replay_obj(r, run))
+            for kk, okk in sorted(run.get("exact_next", {}).items()):
+                if okk is None:
+                    continue
+                n_exact += 1
+                if not okk:
+                    # an earlier solve of this sequence was cancelled: dependencies it had obtained are cached without the
+                    # candidates of the names they mention; the later solve encodes such solvables eagerly (known finding)
+                    earlier_cancel = any(al.okind(s["outcome"]) == "cancelled" for s in run["solves"][:kk])
+                    vkey = "cached-dependencies-of-a-cancelled-solve-encoded-eagerly" if earlier_cancel else key
+                    res.violation(vkey, f"conflict-free problem, solve #{kk} on a reused solver: its provider requests are not exactly what "
+                                  f"the greedy selection needs beyond what earlier solves obtained ({run['label']})", al.replay_obj(r, run))
             if run.get("exact") is not None:
                 n_exact += 1
                 if not run["exact"]:
